@@ -687,8 +687,11 @@ def run_newton_loop(case):
     tolv, mx = z3.Real("tolerance"), z3.Int("max_iterations")
     mvs = dict(tolerance=tolv, max_iterations=mx, iteration=z3.Int("iteration0"), error=z3.Real("error0"))
 
+    dims = {}
+
     def setup(root):
         n = SymInt("n")
+        dims["n"] = n  # the harness's own handle on the dimension (the code's local holding A.shape[0] may have any name)
         assume(n.t >= 1)
         A = _A((n, n))
         eps, tol, mxs = SymReal("epsilon"), SymReal("tolerance"), SymInt("max_iterations")
@@ -698,7 +701,7 @@ def run_newton_loop(case):
     def havoc(env):
         """Arbitrary loop-head state satisfying the invariant: every name the loop body assigns is replaced."""
         import torch
-        n = env["dim"]
+        n = dims["n"]
         e = dict(env)
         for nm in sp.body_stores:
             e[nm] = None
@@ -811,8 +814,11 @@ def run_higher_loop(case):
         fin = SymBool(z3.Bool("lambda_max_finite"))
         binds = [(mf, "torch", ft), (mf, "isfinite", lambda x: fin)]
 
+        dims = {}
+
         def setup():
             n = SymInt("n")
+            dims["n"] = n  # the harness's own handle on the dimension (the code's local that holds A.shape[0] may have any name)
             assume(n.t >= 1)
             A = _A((n, n))
             eps, tol, mxs = SymReal("abs_epsilon"), SymReal("tolerance"), SymInt("max_iterations")
@@ -820,7 +826,7 @@ def run_higher_loop(case):
             return sp.pre(A, root, rel_epsilon=0.0, abs_epsilon=eps, max_iterations=mxs, tolerance=tol, order=order, disable_tf32=False)
 
         def havoc(env, broke=False):
-            n = env["n"]
+            n = dims["n"]
             e = dict(env)
             for nm in sp.body_stores:
                 e[nm] = UNDEF
